@@ -98,6 +98,8 @@ def check(ctx):
 
 
 def comparator(ctx, rid_override):
+    # the comparator's generic-parameter machinery is relied on by name: its definitions are pinned as leaves
+    ctx.mention("GenericsList::extend(", "GenericsList::index_for_type_id(", "GenericsList::index_for_type_name(", "GenericsList::empty(")
     P = ctx.P
     R2 = rid_override or "C03.2"
     fn = q.anchor_fn(ctx, R2, "shape comparator (fn with a match on (&TypeDef, &TypeDef))",
